@@ -71,3 +71,25 @@ func blockReaches(a, b *ssa.BasicBlock) bool {
 	}
 	return false
 }
+
+// lookupTypeInNamedPackages finds a type `pkgName.typeName` in any loaded package of that name.
+func (e *Engine) lookupTypeInNamedPackages(pkgName, typeName string) types.Type {
+	for _, sp := range e.prog.AllPackages() {
+		if sp.Pkg != nil && sp.Pkg.Name() == pkgName {
+			if tn, ok := sp.Pkg.Scope().Lookup(typeName).(*types.TypeName); ok {
+				return tn.Type()
+			}
+		}
+	}
+	return nil
+}
+
+// packageByPath returns the loaded package with the given import path.
+func (e *Engine) packageByPath(path string) *types.Package {
+	for _, sp := range e.prog.AllPackages() {
+		if sp.Pkg != nil && sp.Pkg.Path() == path {
+			return sp.Pkg
+		}
+	}
+	return nil
+}
